@@ -405,13 +405,25 @@ def cli_run(rec, rnd, tmp, k):
     O.write(os.path.join(b, 'config', 'merchants.rules'),
             'zzbadvar = %s\nfield.description = %s\n\n[Bad]\nmatch: %s\ncategory: BadCat\n\n[Netflix]\nlet: zz = %s\nmatch: contains("NETFLIX")\ncategory: Subs\n'
             'field: f = %s\ntags: a, {%s}\n\n[Uber]\nmatch: contains("UBER") or (%s)\ncategory: Food\n' % ((poison,) * 7))
-    O.write(os.path.join(b, 'config', 'views.rules'), 'zzg = %s\n[Bad View]\nfilter: %s\n\n[All]\nfilter: total > 0\n' % (vp, vp))
+    # (the variable that cannot be evaluated may be named like a primitive - cv, total, months - which it then shadows, as nothing)
+    gname = rnd.choice(['zzg', 'zzg', 'cv', 'total', 'months'])
+    O.write(os.path.join(b, 'config', 'views.rules'), '%s = %s\n[Bad View]\nfilter: %s\n\n[All]\nfilter: total > 0\n\n[Everything]\nfilter: true\n' % (gname, vp, vp))
     O.write(os.path.join(b, 'config', 'settings.yaml'),
             'year: 2025\nmerchants_file: config/merchants.rules\nviews_file: config/views.rules\ndata_sources:\n' +
             ''.join('  - name: %s\n    file: data/%s.csv\n    format: "{date:%%Y-%%m-%%d},{description},{amount}"\n' % (n.upper(), n) for n in ('a', 'b')))
+    try:
+        # the statement speaks of files the loader ACCEPTS: a poison that is not part of the language (a list literal ...) is not a case
+        from tally.merchant_engine import parse_merchants
+        from tally.section_engine import parse_sections
+        parse_merchants(open(os.path.join(b, 'config', 'merchants.rules')).read())
+        parse_sections(open(os.path.join(b, 'config', 'views.rules')).read())
+    except Exception:
+        rec.count('cli_budget_rejected_by_the_loader_not_a_case')
+        shutil.rmtree(b, ignore_errors=True)
+        return
     env = dict(os.environ, PYTHONPATH=core.SRC, PYTHONDONTWRITEBYTECODE='1', NO_COLOR='1')
     env.pop('TALLY_CONFIG', None)
-    case = {'kind': 'cli', 'poison': poison, 'view_poison': vp, 'cls': cls}
+    case = {'kind': 'cli', 'poison': poison, 'view_poison': vp, 'cls': cls, 'view_variable': gname}
     rec.case()
     for fmt in ('json', 'summary'):
         p = subprocess.run([core.PY, '-m', 'tally', 'up', os.path.join(b, 'config'), '--format', fmt, '-v'], cwd=b, env=env,
@@ -422,6 +434,15 @@ def cli_run(rec, rnd, tmp, k):
             return
         if 'A: 4 transactions' not in p.stdout or 'B: 4 transactions' not in p.stdout:
             rec.violation('tally-up-loses-source', f'poison {poison!r}: per-source counts missing/wrong: {p.stdout[:400]!r}', case)
+            return
+    # the per-merchant report of `tally explain` is a report too: it is not lost to the view variable that cannot be evaluated
+    for fmt in ('json', 'text', 'markdown'):
+        p = subprocess.run([core.PY, '-m', 'tally', 'explain', 'Netflix', os.path.join(b, 'config'), '--format', fmt, '-v'], cwd=b, env=env,
+                           capture_output=True, text=True, stdin=subprocess.DEVNULL, timeout=120)
+        rec.count('cli_runs')
+        rec.count('explain_merchant_reports')
+        if p.returncode != 0 or 'Netflix' not in p.stdout or 'Traceback' in p.stderr:
+            rec.violation('tally-explain-aborts:' + fmt, f'explain Netflix --format {fmt}: exit {p.returncode} with view variable `{gname} = {vp}`: {(p.stderr or p.stdout)[-300:]}', case)
             return
     rec.interesting(['cli', poison, vp])
     shutil.rmtree(b, ignore_errors=True)
